@@ -293,8 +293,9 @@ func (e *Engine) step(st *State, in ssa.Instruction, prev *ssa.BasicBlock) {
 	case *ssa.DebugRef:
 	case *ssa.Alloc:
 		T := x.Type().(*types.Pointer).Elem()
-		_, isArr := T.Underlying().(*types.Array)
-		if !x.Heap || (isArr && !opaqueNamed(T)) {
+		// objects are allocated lazily: they live Go-side until their address escapes into the heap,
+		// a function under contract or the result (then they are moved into the heap, see spillObject)
+		if !isBigInt(T) {
 			e.cellCtr++
 			id := e.cellCtr
 			st.Cells[id] = cellContent{V: e.zeroVal(T), Typ: T}
@@ -312,7 +313,9 @@ func (e *Engine) step(st *State, in ssa.Instruction, prev *ssa.BasicBlock) {
 	case *ssa.UnOp:
 		fr.Regs[x] = e.unop(st, x)
 	case *ssa.BinOp:
+		shiftCountType = x.Y.Type()
 		fr.Regs[x] = e.binop(st, x.Op, e.get(st, x.X), e.get(st, x.Y), x.X.Type(), x.Type(), x.Pos())
+		shiftCountType = nil
 	case *ssa.FieldAddr:
 		p := e.get(st, x.X)
 		ST := x.X.Type().Underlying().(*types.Pointer).Elem()
@@ -562,6 +565,9 @@ func (e *Engine) binop(st *State, op token.Token, a, b Val, opT types.Type, resT
 	case token.LOR:
 		return scalar(tb.Or(x, y))
 	case token.SHL:
+		if _, signed, isInt := intBits(b2type(opT, resT, b)); isInt && signed {
+			e.oblige(st, "shift", "", pos, tb.Ge(y, tb.Int(0)), "negative shift amount")
+		}
 		if c, ok := y.ConstInt(); ok && c >= 0 && c < 64 {
 			return scalar(e.wrap(tb.Mul(x, tb.BigInt(new(big.Int).Lsh(big.NewInt(1), uint(c)))), resT))
 		}
@@ -571,6 +577,9 @@ func (e *Engine) binop(st *State, op token.Token, a, b Val, opT types.Type, resT
 		}
 		return scalar(e.bitUF(st, "shl", x, y, resT))
 	case token.SHR:
+		if _, signed, isInt := intBits(b2type(opT, resT, b)); isInt && signed {
+			e.oblige(st, "shift", "", pos, tb.Ge(y, tb.Int(0)), "negative shift amount")
+		}
 		if c, ok := y.ConstInt(); ok && c >= 0 && c < 64 {
 			if _, signed, _ := intBits(opT); !signed {
 				return scalar(tb.Div(x, tb.BigInt(new(big.Int).Lsh(big.NewInt(1), uint(c)))))
@@ -610,6 +619,16 @@ func (e *Engine) binop(st *State, op token.Token, a, b Val, opT types.Type, resT
 	}
 	panic(e.unsupported("binary operator " + op.String()))
 }
+
+// b2type: the type of the shift count is not available in binop's signature; shifts pass it via shiftCountType.
+func b2type(opT, resT types.Type, b Val) types.Type {
+	if shiftCountType != nil {
+		return shiftCountType
+	}
+	return types.Typ[types.Uint]
+}
+
+var shiftCountType types.Type
 
 // bitUF models a bit operation as an uninterpreted function whose result is in the type's range.
 func (e *Engine) bitUF(st *State, name string, x, y *Term, T types.Type) *Term {
@@ -672,6 +691,9 @@ func (e *Engine) valEq(st *State, a, b Val, T types.Type) *Term {
 				if xa.Kind == xb.Kind && xa.Cell == xb.Cell && xa.Glob == xb.Glob && xa.Path == xb.Path && xa.Elem == xb.Elem && xa.Ref == xb.Ref && xa.Idx == xb.Idx {
 					return tb.True()
 				}
+				if xa.Kind == PLocal && xb.Kind == PLocal && xa.Cell != xb.Cell {
+					return tb.False()
+				}
 				if xa.Kind == PLocal || xb.Kind == PLocal || xa.Kind == PGlobal || xb.Kind == PGlobal {
 					return tb.False()
 				}
@@ -679,13 +701,20 @@ func (e *Engine) valEq(st *State, a, b Val, T types.Type) *Term {
 			}
 			// interior/local pointer vs plain: never nil; compare to nil -> false
 			var other Val
+			var mine *PtrX
 			if oka {
-				other = b
+				other, mine = b, xa
 			} else {
-				other = a
+				other, mine = a, xb
 			}
 			if c, ok := other.T[0].ConstInt(); ok && c == 0 {
 				return tb.False()
+			}
+			if mine.Kind == PLocal && mine.Path == "" && mine.Elem < 0 {
+				if sp := st.Cells[mine.Cell].Spill; sp != nil {
+					return tb.Eq(sp, other.T[0])
+				}
+				return tb.False() // a local object that never escaped is different from every reference
 			}
 			panic(e.unsupported("comparison of interior pointer with reference"))
 		}
@@ -1073,6 +1102,15 @@ func (e *Engine) convert(st *State, x *ssa.Convert) Val {
 	case fok && tok && fb.Info()&types.IsInteger != 0 && tbz.Info()&types.IsFloat != 0:
 		return scalar(tb.App("int2float", SInt, v.T[0]))
 	case fok && tok && fb.Info()&types.IsFloat != 0 && tbz.Info()&types.IsInteger != 0:
+		if a := v.T[0]; a.Op == "app" && a.Name == "ceildiv" {
+			if c, ok := a.Args[1].ConstInt(); ok && c > 0 {
+				// int(math.Ceil(float64(n)/c)) == (n+c-1)/c for 0 <= n < 2^53 (float64 is exact there); trusted arithmetic fact
+				e.Assumed["int(math.Ceil(float64(n)/c)) == (n+c-1)/c for 0 <= n < 2^53 and constant c > 0 (float64 exactness; side fact, not proved by the solver)"] = true
+				n := a.Args[0]
+				return scalar(tb.Ite(tb.And(tb.Ge(n, tb.Int(0)), tb.Lt(n, tb.BigInt(new(big.Int).Lsh(big.NewInt(1), 53)))),
+					tb.Div(tb.Add(n, tb.Int(c-1)), tb.Int(c)), tb.App("float2int_"+typeKey(to), SInt, a)))
+			}
+		}
 		r := tb.App("float2int_"+typeKey(to), SInt, v.T[0])
 		e.wfLeaf(st, Leaf{Kind: LKInt, Typ: to}, r)
 		return scalar(r)
